@@ -199,6 +199,9 @@ def check_iterations(ctx: core.Ctx, g: GenInfo, rule="GEN-ITER"):
                    line=i["line"])
         # SLOT-AGREE per fragment function
         short = func.split(".")[-1]
+        if i["file"] == FRAG and short not in FRAG_ROLE:
+            # an iteration inside a helper belongs to the fragment function that called it
+            short = next((q.split(".")[-1] for q in reversed(i.get("stack", ())) if q.split(".")[-1] in FRAG_ROLE), short)
         if i["file"] == FRAG and short in FRAG_ROLE:
             exp = FRAG_ROLE[short]
             ctx.oblige("SLOT-AGREE", where, f"{short} enumerates {lay}", role == exp, file=i["file"], func=func, construct=f"role of {short}",
@@ -212,12 +215,78 @@ def check_iterations(ctx: core.Ctx, g: GenInfo, rule="GEN-ITER"):
         ctx.error(f"{FRAG}: no role-typed iteration found in {missing} (anchor vanished or idiom not enumerated)")
     # unordered iteration in fragments evaluated as Unknown source
     for i in g.it.iterations:
-        if i["file"] == FRAG and isinstance(i["source"], Unknown) and i["func"].split(".")[-1] in FRAG_ROLE:
+        if i["file"] == FRAG and isinstance(i["source"], Unknown) and (i["func"].split(".")[-1] in FRAG_ROLE
+                                                                       or any(q.split(".")[-1] in FRAG_ROLE for q in i.get("stack", ()))):
             ctx.error(f"{FRAG}:{i['func']}: iteration over `{i['iter']}` could not be evaluated")
 
 
 def check_slot_idx(ctx: core.Ctx, g: GenInfo):
-    """SLOT-IDX: syntactic check of every `for idx, name in enumerate(L)` comprehension building accessors."""
+    """SLOT-IDX on the derived skeleton (fv.minieval evaluates the repo's construction code for stand-in generators whose names and sizes are
+    pairwise distinct): in State / Control / Calibration the accessor named arglist[i] returns data(i, 0), in Covariance data(i, i); each
+    name has exactly one mutable and one const accessor; the Options structs list the same names in the same order; rows == the size."""
+    w = witness.Witness(ctx)
+    n = 0
+    for val in (witness.Valuation(True, True), witness.Valuation(True, True, n_state=3, n_control=4, n_calib=2)):
+        ev = minieval.MiniEval({"ast_fragments": w.frag, "cpp": w.cpp}, aliases={"fragments": "ast_fragments"})
+        gen = witness.FakeGenerator(val)
+        header = ev.call_named("cpp", "_header_body", generator=gen)
+        classes = {}
+
+        def walk(nodes):
+            for nd in nodes or []:
+                if isinstance(nd, minieval.Node):
+                    if nd.kind == "ClassDef":
+                        classes.setdefault(nd.name, nd)
+                    for f in ("body", "namespaces", "templated"):
+                        v = getattr(nd, f, None)
+                        if isinstance(v, list):
+                            walk(v)
+                        elif isinstance(v, minieval.Node):
+                            walk([v])
+        walk(header)
+        table = [("State", gen.arglist_state, "vec"), ("Control", gen.arglist_control, "vec"), ("Calibration", gen.arglist_calibration, "vec"),
+                 ("Covariance", gen.arglist_state, "cov")]
+        for tname, arglist, kind in table:
+            where = f"{FRAG}:{tname} [stand-in sizes {val.n_state}/{val.n_control}/{val.n_calib}]"
+            c = classes.get(tname)
+            if c is None:
+                ctx.error(f"{where}: struct {tname} is not in the derived header skeleton")
+                continue
+            acc = [x for x in c.body if isinstance(x, minieval.Node) and x.kind == "FunctionDef" and str(x.name) in [str(a) for a in arglist]]
+            n += 1
+            got = {}
+            bad = []
+            for a in acc:
+                rets = [r for r in (a.body or []) if isinstance(r, minieval.Node) and r.kind == "Return"]
+                txt = str(rets[0].value).replace(" ", "") if len(rets) == 1 and len(a.body) == 1 else "?"
+                got.setdefault(str(a.name), []).append((str(a.return_type).replace(" ", ""), str(a.modifier or "").strip(), txt))
+            for i_, name in enumerate(arglist):
+                slot = f"data({i_},0)" if kind == "vec" else f"data({i_},{i_})"
+                want = sorted([("double&", "", slot), ("double", "const", slot)])
+                have = sorted(got.get(str(name), []))
+                if have != want:
+                    bad.append(f"{name}: {have} (required {want})")
+            ctx.oblige("SLOT-IDX", where, f"{len(arglist)} name(s): accessor k returns " + ("data(idx(k), 0)" if kind == "vec" else "data(idx(k), idx(k))"), not bad,
+                       file=FRAG, func=tname, construct=f"accessor slots of {tname}",
+                       msg=f"in the generated struct {tname} the accessors do not read the slot of their own name: " + "; ".join(bad[:3]))
+            rows = [x for x in c.body if isinstance(x, minieval.Node) and x.kind == "MemberDeclaration" and x.name == "rows"]
+            okr = len(rows) == 1 and str(rows[0].value) == str(len(arglist))
+            ctx.oblige("SLOT-IDX", where, f"rows = {rows[0].value if rows else None}", okr, file=FRAG, func=tname, construct=f"rows of {tname}",
+                       msg=f"struct {tname} declares rows = {rows[0].value if rows else None} for {len(arglist)} names")
+            if kind == "vec":
+                o = classes.get(tname + "Options")
+                if o is None:
+                    ctx.error(f"{where}: struct {tname}Options is not in the derived header skeleton")
+                    continue
+                mem = [str(x.name) for x in o.body if isinstance(x, minieval.Node) and x.kind == "MemberDeclaration"]
+                ctx.oblige("SLOT-IDX", where, f"{tname}Options members {mem}", mem == [str(a) for a in arglist], file=FRAG, func=tname + "Options",
+                           construct=f"members of {tname}Options", msg=f"{tname}Options lists {mem}; the names of the type in order are {[str(a) for a in arglist]}")
+    ctx.floor("SLOT-IDX", n, 8, "accessor tables in the derived skeleton (State, Control, Calibration, Covariance x 2 stand-ins)")
+
+
+def check_slot_idx_src(ctx: core.Ctx, g: GenInfo):
+    """SLOT-IDX (source form): every `for idx, name in enumerate(L)` comprehension that builds accessors, where the source has that shape.
+    The deciding rule is check_slot_idx (on the derived skeleton); this one adds the for-every-index argument when the idiom is recognisable."""
     frag = g.p.modules["ast_fragments"]
     n = 0
     for fn in frag.body:
@@ -232,7 +301,6 @@ def check_slot_idx(ctx: core.Ctx, g: GenInfo):
                 continue
             t = gen.target
             if not (isinstance(t, ast.Tuple) and len(t.elts) == 2 and all(isinstance(e, ast.Name) for e in t.elts)):
-                ctx.error(f"{FRAG}:{fn.name}: enumerate target `{ast.unparse(t)}` not understood")
                 continue
             idx, name = t.elts[0].id, t.elts[1].id
             start_ok = len(it.args) == 1 and not it.keywords
@@ -259,7 +327,7 @@ def check_slot_idx(ctx: core.Ctx, g: GenInfo):
                 if isinstance(sub, ast.Constant) and isinstance(sub.value, str) and "data(" in sub.value and not isinstance(sub, ast.JoinedStr):
                     # a literal data(<number>, ...) inside an enumeration: a fixed slot for every name
                     pass
-    ctx.floor("SLOT-IDX", n, 5, "accessor enumerations in ast_fragments.py (State, Control, Calibration, Covariance, Reading)")
+    ctx.note(f"SLOT-IDX: {n} accessor enumeration(s) recognised in source form")
 
 
 def _standard_args(ctx, w: "witness.Witness", ekf: bool, cal: bool, ctl: bool):
@@ -409,6 +477,7 @@ def check_all(ctx: core.Ctx, g: GenInfo = None):
     check_obligations(ctx, g)
     check_iterations(ctx, g)
     check_slot_idx(ctx, g)
+    check_slot_idx_src(ctx, g)
     check_subs(ctx, g)
     check_returns(ctx, g)
     return g
